@@ -936,6 +936,10 @@ def cone_predicates(p, outcome, calls, M, A, pos):
         return bad
     for i in range(p['num']):
         y, lam = evec[pos:, i], float(ev[i])
+        if np.isinf(lam) and np.linalg.norm(y) > 0 and np.linalg.norm(A @ y) <= TOL_RES * nA * np.linalg.norm(y):
+            # the solver returned mu = 0 exactly: the mode carries no geometric stiffness (A v = 0) and -1/mu = inf is the limit value, like the
+            # multipliers above 1e8 below - more values were requested than there are finite multipliers; not judged
+            continue
         if not np.isfinite(lam) or np.linalg.norm(y) == 0:
             bad.append((None, 'ConeCyl.lb pair %d: zero mode or non-finite multiplier %r' % (i, lam)))
             break
